@@ -11,13 +11,13 @@ package jpeg
 
 // Data-structure invariant while scanning: the reader exists; after nextMarker reported a marker, jr.buf is the 64-byte
 // window at the marker and the next 64 bytes are buffered.
-//@ spec atMarker(jr) = jr.br != nil && len(jr.buf) == 64 && arr(jr.buf) == sid(jr.br) && off(jr.buf) == pos(jr.br) && pos(jr.br) + 64 <= lim(jr.br) && peeked(jr.br) >= 64
+//@ spec atMarker(jr) = jr.br != nil && len(jr.buf) == 64 && cap(jr.buf) >= 64 && arr(jr.buf) == sid(jr.br) && off(jr.buf) == pos(jr.br) && pos(jr.br) + 64 <= lim(jr.br) && peeked(jr.br) >= 64
 
 //@ func (*jpegReader).discard
 //@   props C02 C10
 //@   requires jr.br != nil
 //@   modifies jr.discarded, stream(jr.br)
-//@   ensures [C10] i >= 0 ==> pos(jr.br) >= old(pos(jr.br)) && pos(jr.br) <= old(pos(jr.br)) + i && jr.discarded == old(jr.discarded) + uint32(pos(jr.br) - old(pos(jr.br)))
+//@   ensures [C10] i >= 0 ==> pos(jr.br) >= old(pos(jr.br)) && jr.discarded == old(jr.discarded) + uint32(pos(jr.br) - old(pos(jr.br)))
 //@   ensures [C10] err == nil && i >= 0 ==> pos(jr.br) == old(pos(jr.br)) + i
 //@   ensures [C02] i < 0 ==> pos(jr.br) == old(pos(jr.br)) && err != nil
 //@   ensures [C10] 0 <= i && i <= old(peeked(jr.br)) ==> err == nil
@@ -49,3 +49,42 @@ package jpeg
 //@   modifies jr.err, jr.discarded, jr.sofHeader, stream(jr.br)
 //@   ensures [C10] jr.err == nil ==> pos(jr.br) == old(pos(jr.br)) + 2 + int(jr.size)
 //@   ensures [C10] pos(jr.br) >= old(pos(jr.br)) && jr.discarded == old(jr.discarded) + uint32(pos(jr.br) - old(pos(jr.br)))
+
+// APP handlers.
+//@ func (*jpegReader).readAPP0
+//@   props C02 C10
+//@   requires atMarker(jr)
+//@   modifies jr.err, jr.discarded, stream(jr.br)
+//@   ensures [C10] jr.err == nil ==> pos(jr.br) == old(pos(jr.br)) + 2 + int(jr.size)
+//@   ensures [C10] pos(jr.br) >= old(pos(jr.br)) && jr.discarded == old(jr.discarded) + uint32(pos(jr.br) - old(pos(jr.br)))
+
+//@ func (*jpegReader).readAPP2
+//@   props C02 C10
+//@   requires atMarker(jr)
+//@   modifies jr.err, jr.discarded, stream(jr.br)
+//@   ensures [C10] jr.err == nil ==> pos(jr.br) == old(pos(jr.br)) + 2 + int(jr.size)
+//@   ensures [C10] pos(jr.br) >= old(pos(jr.br)) && jr.discarded == old(jr.discarded) + uint32(pos(jr.br) - old(pos(jr.br)))
+
+//@ func (*jpegReader).readAPP13
+//@   props C02 C10
+//@   requires atMarker(jr)
+//@   modifies jr.err, jr.discarded, stream(jr.br)
+//@   ensures [C10] jr.err == nil ==> pos(jr.br) == old(pos(jr.br)) + 2 + int(jr.size)
+//@   ensures [C10] pos(jr.br) >= old(pos(jr.br)) && jr.discarded == old(jr.discarded) + uint32(pos(jr.br) - old(pos(jr.br)))
+
+// The Exif callback is handed the scanner's reader positioned at the TIFF header of the APP1 payload (marker 2 bytes +
+// length 2 + "Exif\0\0" 6 = 10 bytes after the marker), with the byte order and first-IFD offset stored there, the absolute
+// offset of that header and the payload length after the Exif prefix (segment length - 8). ASSUMED about the callback:
+// it only consumes forward. The library's own Exif reader consumes its declared length; then the scan resumes at the
+// next marker.
+//@ dep callback jpeg.jpegReader.ExifReader
+//@   names r h -> err
+//@   modifies stream(r)
+//@   ensures pos(r) >= old(pos(r))
+
+//@ func (*jpegReader).readExif
+//@   props C02 C10 C06
+//@   requires atMarker(jr) && exifPrefixAt(jr.br, pos(jr.br) + 4)
+//@   modifies jr.discarded, stream(jr.br)
+//@   ensures [C10] pos(jr.br) >= old(pos(jr.br))
+//@   ensures [C10] err == nil && jr.ExifReader == nil ==> pos(jr.br) == old(pos(jr.br)) + 2 + int(jr.size)
